@@ -123,6 +123,9 @@ func (m *Temporal) GetError() error {
 
 // IsEmpty returns true if all elements of Temporal Metrics are empty.
 func (m *Temporal) IsEmpty() bool {
+	if m == nil {
+		return true
+	}
 	return !m.names[metricE] && !m.names[metricRL] && !m.names[metricRC]
 }
 
